@@ -5,10 +5,16 @@
 // this package is empty.
 package verifhook
 
-import "context"
+import (
+	"context"
+	"sync"
+)
 
 // Enabled reports whether the binary was built with the verif tag.
 const Enabled = false
 
 // Yield does nothing in regular builds.
 func Yield(context.Context, string) {}
+
+// BeforeLock does nothing in regular builds.
+func BeforeLock(context.Context, *sync.Mutex, string) {}
